@@ -17,7 +17,7 @@ use rbx_types::SharedString;
 use serde::{Deserialize, Serialize};
 
 use crate::engine::{CaseCtx, Ctx, Fail, PropResult, PropertyReport, SubReport};
-use crate::fail;
+use crate::{ensure, fail};
 
 #[derive(Clone, Copy, Debug, PartialEq, Eq, Hash, Serialize, Deserialize)]
 pub enum SOp {
@@ -600,6 +600,133 @@ fn stress(ctx: &Ctx) -> SubReport {
     r
 }
 
+// ---------------------------------------------------------------------------
+// single-threaded API sequences: every way a handle can appear or disappear, and many live contents
+
+#[derive(Clone, Debug, Serialize, Deserialize)]
+pub enum ApiOp {
+    New(u8),
+    Clone(u8),
+    /// `dst.clone_from(&src)` (also what Vec::clone_from / Option::clone_from call)
+    CloneFrom(u8, u8),
+    /// `*dst = src.clone()`
+    Assign(u8, u8),
+    Drop(u8),
+    /// `Vec<SharedString>::clone_from` over all live handles in reverse order
+    VecCloneFrom,
+}
+
+#[derive(Clone, Debug, Serialize, Deserialize)]
+pub struct ApiCase {
+    pub ops: Vec<ApiOp>,
+    /// distinct contents kept alive next to the sequence (0 = none)
+    pub ballast: u16,
+}
+
+fn api_body(case: &ApiCase, ctx: &mut CaseCtx) -> PropResult {
+    let tag = CASE_COUNTER.fetch_add(1, Ordering::Relaxed);
+    let content = |c: usize| format!("c18-api-{tag}-{c}").into_bytes();
+    let ballast: Vec<SharedString> = (0..case.ballast as usize).map(|i| SharedString::new(content(1000 + i))).collect();
+    let mut live: Vec<(SharedString, usize)> = Vec::new();
+    let pick = |sel: u8, len: usize| if len == 0 { None } else { Some(sel as usize % len) };
+    let mut used_clone_from = false;
+    let res = crate::engine::catch(|| -> Result<(), Fail> {
+        for op in &case.ops {
+            match op {
+                ApiOp::New(c) => live.push((SharedString::new(content(*c as usize % 5)), *c as usize % 5)),
+                ApiOp::Clone(h) => {
+                    if let Some(i) = pick(*h, live.len()) {
+                        let x = (live[i].0.clone(), live[i].1);
+                        live.push(x);
+                    }
+                }
+                ApiOp::CloneFrom(d, s_) => {
+                    if let (Some(d), Some(s_)) = (pick(*d, live.len()), pick(*s_, live.len())) {
+                        if d != s_ {
+                            let (src, c) = (live[s_].0.clone(), live[s_].1);
+                            live[d].0.clone_from(&src);
+                            live[d].1 = c;
+                            used_clone_from = true;
+                        }
+                    }
+                }
+                ApiOp::Assign(d, s_) => {
+                    if let (Some(d), Some(s_)) = (pick(*d, live.len()), pick(*s_, live.len())) {
+                        if d != s_ {
+                            let (src, c) = (live[s_].0.clone(), live[s_].1);
+                            live[d] = (src, c);
+                        }
+                    }
+                }
+                ApiOp::Drop(h) => {
+                    if let Some(i) = pick(*h, live.len()) {
+                        live.swap_remove(i);
+                    }
+                }
+                ApiOp::VecCloneFrom => {
+                    if live.len() >= 2 {
+                        let src: Vec<SharedString> = live.iter().rev().map(|(h, _)| h.clone()).collect();
+                        let cs: Vec<usize> = live.iter().rev().map(|(_, c)| *c).collect();
+                        let mut dst: Vec<SharedString> = live.drain(..).map(|(h, _)| h).collect();
+                        dst.clone_from(&src);
+                        live = dst.into_iter().zip(cs).collect();
+                        used_clone_from = true;
+                    }
+                }
+            }
+            // every live handle: own bytes; equal contents share one buffer, are == and hash alike
+            for (h, c) in &live {
+                ensure!(h.data() == content(*c).as_slice(), "c18:api:wrong-bytes", "a handle shows other bytes than it was created from");
+            }
+            for i in 0..live.len() {
+                for j in i + 1..live.len() {
+                    if live[i].1 == live[j].1 {
+                        ensure!(live[i].0.data().as_ptr() == live[j].0.data().as_ptr(), "c18:api:not-shared", "two live handles of one content hold different buffers after {:?}", op);
+                        ensure!(live[i].0 == live[j].0, "c18:api:not-equal", "equal contents compare unequal");
+                    }
+                }
+            }
+        }
+        // ballast re-interned: the same buffers
+        for (i, b) in ballast.iter().enumerate() {
+            let again = SharedString::new(content(1000 + i));
+            ensure!(again.data().as_ptr() == b.data().as_ptr(), "c18:api:not-shared", "content #{i} of {} live contents was interned a second time into another buffer", ballast.len());
+        }
+        Ok(())
+    });
+    ctx.label_if(used_clone_from, "clone_from_used");
+    ctx.label_if(case.ballast >= 1024, "more_than_1024_live_contents");
+    ctx.nontrivial_if(used_clone_from || case.ballast >= 1024 || case.ops.len() >= 4);
+    match res {
+        Err(info) => fail!("c18:api:panic", "a SharedString operation panicked: {}", info.msg),
+        Ok(Err(f)) => return Err(f),
+        Ok(Ok(())) => {}
+    }
+    drop(live);
+    drop(ballast);
+    for c in 0..5 {
+        ensure!(!rbx_types::verif_cache_has(&content(c)), "c18:api:entry-left-behind", "the intern table still holds content {c} after every handle was dropped");
+    }
+    for i in (0..case.ballast as usize).step_by(97) {
+        ensure!(!rbx_types::verif_cache_has(&content(1000 + i)), "c18:api:entry-left-behind", "the intern table still holds ballast content {i} after every handle was dropped");
+    }
+    Ok(())
+}
+
+fn api_strategy() -> BoxedStrategy<ApiCase> {
+    let op = prop_oneof![
+        4 => any::<u8>().prop_map(ApiOp::New),
+        2 => any::<u8>().prop_map(ApiOp::Clone),
+        2 => (any::<u8>(), any::<u8>()).prop_map(|(a, b)| ApiOp::CloneFrom(a, b)),
+        1 => (any::<u8>(), any::<u8>()).prop_map(|(a, b)| ApiOp::Assign(a, b)),
+        3 => any::<u8>().prop_map(ApiOp::Drop),
+        1 => Just(ApiOp::VecCloneFrom),
+    ];
+    (proptest::collection::vec(op, 0..14), prop_oneof![6 => Just(0u16), 2 => 1u16..64, 1 => 1000u16..2600])
+        .prop_map(|(ops, ballast)| ApiCase { ops, ballast })
+        .boxed()
+}
+
 pub fn op_strategy() -> BoxedStrategy<SOp> {
     prop_oneof![
         4 => (0u8..2).prop_map(SOp::New),
@@ -617,6 +744,7 @@ pub fn run(ctx: &Ctx) -> PropertyReport {
          schedule through the cfg(rbx_dom_verif) yield points (before the table lock in new(), between the last release and the table clean-up in Drop, and at every \
          operation boundary). After every step, with all threads parked: each live handle exposes its bytes, equal contents are ==, hash equal and share one buffer; no panic, no \
          stuck thread; at quiescence the table has no entry for the case's contents. Exhaustive DFS over all schedules of all small programs, plus random programs and schedules, \
+         plus single-threaded API sequences (new / clone / clone_from / assignment / drop / Vec::clone_from, optionally next to 1000-2600 other live contents) with the same oracles, \
          plus an uncontrolled 16-thread stress run. Non-trivial = a schedule in which a Drop's clean-up half is separated from its release half by another thread's new().",
     );
     rep.assume("data races inside Arc / Mutex are trusted to std; the controlled granularity is the one the property names");
@@ -666,6 +794,14 @@ pub fn run(ctx: &Ctx) -> PropertyReport {
         };
         let mut r = ctx.run_prop("random", cases, strat, random_body);
         r.floor("cleanup_separated_from_release_by_a_new", cases / 500);
+        rep.push(r);
+    }
+    if sub.runs("api-sequences") {
+        let cases = ctx.cfg.cases(20_000, 600_000);
+        rbx_types::verif_set_yield_hook(None);
+        let mut r = ctx.run_prop("api-sequences", cases, api_strategy, api_body);
+        r.floor("clone_from_used", cases / 20);
+        r.floor("more_than_1024_live_contents", cases / 50);
         rep.push(r);
     }
     if sub.runs("free-running-stress") {
